@@ -84,7 +84,7 @@ _C = {}
 
 def msets(tier):
     if tier not in _C:
-        kmax = 3 if tier == "quick" else 4
+        kmax = 3 if tier == "quick" else 5
         out = []
         for k in range(1, kmax + 1):
             out += multisets(6, k)
